@@ -25,10 +25,12 @@ func vdOps(mode, profile string) []vdWeighted {
 	fault := 1
 	bulk := 1
 	leaf := 5
+	openattr := 5
 	if mode == "C14" {
 		fault = 6
 		bulk = 2
 		leaf = 10
+		openattr = 8
 	}
 	if profile == "wide" {
 		// One directory is filled to 12-16 names and listed through several
@@ -59,6 +61,7 @@ func vdOps(mode, profile string) []vdWeighted {
 		{"dir_setattr", 3, (*vdCase).opDirSetAttributes},
 		{"leaf_session", leaf, (*vdCase).opLeafSession},
 		{"leaf_setattr", 3, (*vdCase).opLeafSetAttributes},
+		{"open_named_attributes", openattr, (*vdCase).opOpenNamedAttributes},
 		{"mkdir", 7, (*vdCase).opMkdir},
 		{"open", 12, (*vdCase).opOpen},
 		{"mknod", 6, (*vdCase).opMknod},
@@ -104,6 +107,8 @@ func vdRunCase(rt *rapid.T, rec *simkit.Recorder, mode, profile string) {
 		c.alphabet = vdWideAlphabet
 	}
 	c.register(c.m.root, w.root)
+	vdWatchCase.Store(c)
+	defer vdWatchCase.Store(nil)
 	// The FUSE removal notifier stands for the kernel being told to drop
 	// a directory entry; the code documents that this must not happen
 	// while directory locks are held.
@@ -115,6 +120,17 @@ func vdRunCase(rt *rapid.T, rec *simkit.Recorder, mode, profile string) {
 		}
 	}
 	ops := vdOps(mode, profile)
+	if handles != "nfs" {
+		// OPENATTR is only generated under the NFS handle allocator (see
+		// engine_naops_test.go): the FUSE front end has no such call.
+		kept := ops[:0:0]
+		for _, o := range ops {
+			if o.name != "open_named_attributes" {
+				kept = append(kept, o)
+			}
+		}
+		ops = kept
+	}
 	// rapid biases integer draws towards small values, so the weighted
 	// table is interleaved: every prefix has roughly the intended mix.
 	var table []int
@@ -207,19 +223,22 @@ func vdRunCase(rt *rapid.T, rec *simkit.Recorder, mode, profile string) {
 }
 
 func TestC13DirectoryModel(t *testing.T) {
+	vdStartWatchdog(t.Name())
 	rec := simkit.NewRecorder(t, "C13", "directory_model",
-		"rapid state machine over the real InMemoryPrepopulatedDirectory (pool-backed file allocator over an in-memory pool, NFS or FUSE handle allocator, case-sensitive or -insensitive normaliser, optional hidden-files matcher, fake clock): every kernel-facing Virtual* call and every worker-facing bulk call (incl. lazily populated subdirectories and saved FilterChildren removers; also InstallHooks, VirtualApply, VirtualSetAttributes on directories, and open/read/write/seek/allocate/setattr/close sessions on regular files with one-shot failures of the pool file), names from {a,b,A,c,.hidden}, up to 6 live directories plus removed ones that are still referenced, symlink targets that repeat, colliding spellings of one name; one case in six uses the wide profile (see wide_listings). Oracle: naive POSIX-style reference tree; after every call the status/errno, ChangeInfo, the complete observable state of every known directory (LookupAllChildren, ReadDir, VirtualReadDir, VirtualLookup/LookupChild of every name, object identity, link counts, inode numbers, file bytes through every hard link) and the change IDs are compared; paginated listings are kept open across mutations and checked for exactly-once reporting when they end. Non-trivial: (a rename onto an existing entry OR removal of a non-empty directory / a mutation attempted on a removed directory) AND a paginated listing that saw a mutation of its directory between two of its pages; distinct by script hash")
+		"rapid state machine over the real InMemoryPrepopulatedDirectory (pool-backed file allocator over an in-memory pool, NFS or FUSE handle allocator, case-sensitive or -insensitive normaliser, optional hidden-files matcher, fake clock): every kernel-facing Virtual* call and every worker-facing bulk call (incl. lazily populated subdirectories and saved FilterChildren removers; also InstallHooks, VirtualApply, VirtualSetAttributes on directories, and open/read/write/seek/allocate/setattr/close sessions on regular files with one-shot failures of the pool file; under the NFS handle allocator also VirtualOpenNamedAttributes (createDirectory true/false) on files, directories, symlinks/FIFOs/sockets and nodes of attribute directories, after which the attribute directory is one more directory of the case for all kernel-facing calls and goes away with its owner), names from {a,b,A,c,.hidden}, up to 6 live directories plus removed ones that are still referenced, symlink targets that repeat, colliding spellings of one name; one case in six uses the wide profile (see wide_listings). Oracle: naive POSIX-style reference tree; after every call the status/errno, ChangeInfo, the complete observable state of every known directory (LookupAllChildren, ReadDir, VirtualReadDir, VirtualLookup/LookupChild of every name, object identity, link counts, inode numbers, file bytes through every hard link) and the change IDs are compared; paginated listings are kept open across mutations and checked for exactly-once reporting when they end. Non-trivial: (a rename onto an existing entry OR removal of a non-empty directory / a mutation attempted on a removed directory) AND a paginated listing that saw a mutation of its directory between two of its pages; distinct by script hash")
 	rapid.Check(t, func(rt *rapid.T) { vdRunCase(rt, rec, "C13", "mixed") })
 }
 
 func TestC13WideListings(t *testing.T) {
+	vdStartWatchdog(t.Name())
 	rec := simkit.NewRecorder(t, "C13", "wide_listings",
 		"the directory_model state machine in its 'wide' profile: 16 names {a,b,A,c,.hidden,d..n}; a wide_fill call (CreateChildren of 4-12 absent names, files/symlinks/lazy directories) brings one directory to 12-16 entries; up to 4 paginated listings with page sizes 1-8 or 'all' are kept open while entries are removed, renamed and added; three in ten cursor steps rewind the listing to an arbitrary earlier cookie that was handed out (also one whose entry has been removed since). Oracle: as directory_model (naive POSIX tree after every call) and per listing: cookies strictly increase, no incarnation of an entry is reported twice, nothing is reported that is not in the directory, and when the listing ends every entry that existed from its first page on was reported exactly once. Non-trivial: a listing that had at least 9 visible entries in its directory at one of its pages, saw a mutation of the directory between two pages and ran to the end; distinct by script hash")
 	rapid.Check(t, func(rt *rapid.T) { vdRunCase(rt, rec, "C13", "wide") })
 }
 
 func TestC14DirectoryLockLeak(t *testing.T) {
+	vdStartWatchdog(t.Name())
 	rec := simkit.NewRecorder(t, "C14", "directory_lock_leak",
-		"same call grammar as C13 with injected failures at higher rates (failing InitialContentsFetcher, file allocator, file pool, symlink factory; calls on removed and on uninitialised directories; every bulk call; InstallHooks, VirtualApply, VirtualSetAttributes on directories; on pool-backed files VirtualOpenSelf incl. O_TRUNC / unlinked files / share masks 0,4,7, VirtualRead, VirtualWrite, VirtualSeek, VirtualAllocate, VirtualSetAttributes, VirtualClose, each with a generated one-shot failure of the pool file's ReadAt, WriteAt (also short), Truncate or GetNextRegionOffset). Oracle: after EVERY call, inside every FilterChildren callback and after the read-only verification calls, VerifLockIsFree/VerifDirectoryLockIsFree for every directory object known so far, VerifLeafLockIsFree for every pool-backed file and the NFS handle pool lock must all report free (no call is in progress, so a held lock was leaked by the call just made, which is named); FUSE NotifyRemoval must run with no directory lock held. The next call is only issued after all probes passed, so a leak is reported instead of hanging. Non-trivial: the case contained a call that returned an error / non-OK status; labels ret:<function>:<code> show which error returns were reached; distinct by script hash")
+		"same call grammar as C13 with injected failures at higher rates (failing InitialContentsFetcher, file allocator, file pool, symlink factory; calls on removed and on uninitialised directories; every bulk call; InstallHooks, VirtualApply, VirtualSetAttributes on directories; on pool-backed files VirtualOpenSelf incl. O_TRUNC / unlinked files / share masks 0,4,7, VirtualRead, VirtualWrite, VirtualSeek, VirtualAllocate, VirtualSetAttributes, VirtualClose, each with a generated one-shot failure of the pool file's ReadAt, WriteAt (also short), Truncate or GetNextRegionOffset; under the NFS handle allocator VirtualOpenNamedAttributes on files/directories/other nodes, every kernel-facing call on the named attribute directories and inside them, and removal of owners that have a (non-)empty attribute directory by every removing call). Oracle: after EVERY call, inside every FilterChildren callback and after the read-only verification calls, VerifLockIsFree/VerifDirectoryLockIsFree for every directory object known so far, VerifLeafLockIsFree for every pool-backed file and the NFS handle pool lock must all report free (no call is in progress, so a held lock was leaked by the call just made, which is named); FUSE NotifyRemoval must run with no directory lock held. The next call is only issued after all probes passed, so a leak is reported instead of hanging; a call that never returns because it waits for a mutex only its own goroutine could release (self-deadlock) is reported by a real-time watchdog (40 s without a call returning, the calling goroutine parked in sync.Mutex/RWMutex in two dumps, no other goroutine in harness or /repo code). Non-trivial: the case contained a call that returned an error / non-OK status; labels ret:<function>:<code> show which error returns were reached; distinct by script hash")
 	rapid.Check(t, func(rt *rapid.T) { vdRunCase(rt, rec, "C14", "std") })
 }
